@@ -26,7 +26,36 @@ def gen_fn(rng):
     if rng.random() < 0.15:
         for s in srcs:
             s["args"]["vo"] = 0.0
+    if rng.random() < 0.25:
+        moved_into_dead(rng, d)
     return d
+
+
+def moved_into_dead(rng, d):
+    """build history: a leaf that ends up below a structurally dead element is first attached to a LIVE stage, the system is
+    solved, the leaf is deleted and re-added under the same name at its real (dead) place - whatever an earlier solve cached
+    about the wiring, the leaf must be at exactly 0 V / 0 A afterwards (sysdesc.build: plan `moved`)"""
+    phases = list(d.get("phases") or {}) or [None]
+    dead_any = {}
+    for ph in phases:
+        for n, v in oracles.structural_dead(d, ph).items():
+            dead_any[n] = dead_any.get(n, False) or v
+    dead_all = {n: all(oracles.structural_dead(d, ph)[n] for ph in phases) for n in dead_any}
+    comps = d["comps"]
+    used = set(q for c in comps for q in c["parents"])
+    rails = {c.get("rail"): c["name"] for c in comps if c.get("rail")}
+    used |= {rails[u] for u in list(used) if u in rails}
+    leaves = [c for c in comps if c["kind"] not in ("source", "pmux") and c["name"] not in used and c.get("rail", "") not in used
+              and len(c["parents"]) == 1 and dead_any.get(rails.get(c["parents"][0], c["parents"][0]))]
+    if not leaves:
+        return
+    x = rng.choice(leaves)
+    real = rails.get(x["parents"][0], x["parents"][0])
+    hosts = [c["name"] for c in comps if c["kind"] not in ("pload", "iload", "rload") and c["name"] not in (x["name"], real)
+             and not dead_all.get(c["name"])]
+    if not hosts:
+        return
+    d["_build"] = {"moved": {"x": x["name"], "first_parent": rng.choice(hosts)}}
 
 
 tablecheck.make(globals(), cols=["vin", "vout", "iin", "iout", "pwr", "loss"], textcols=["typ"], oracle=oracles.o_c04,
